@@ -331,13 +331,86 @@ def sample_value(ty, rnd):
     raise ValueError(ty)
 
 
-def check_form(run, form, rnd, nsamples):
+def shapes_for(ty):
+    """Argument shapes: (name, blueprint maker(x, c), value function(v, cv)).  Derived constructors that look at
+    the shape of their arguments (idempotence / sign shortcuts) must still denote the named function."""
+    x0 = lambda x, c: x
+    out = [("symbol", x0, lambda v, cv: v)]
+    if ty in (INT, REAL):
+        z = B.const(ty, Fraction(0) if ty == REAL else 0)
+        neg = lambda x: ("MINUS", (), (z, x))
+        out += [("ite-neg", lambda x, c: ("ITE", (), (c, x, neg(x))), lambda v, cv: v if cv else -v),
+                ("abs-idiom", lambda x, c: ("ITE", (), (("LT", (), (z, x)), x, neg(x))), lambda v, cv: abs(v)),
+                ("nabs-idiom", lambda x, c: ("ITE", (), (("LT", (), (x, z)), x, neg(x))), lambda v, cv: -abs(v)),
+                ("zero-minus", lambda x, c: neg(x), lambda v, cv: -v)]
+    elif is_bv(ty):
+        Mw = 1 << ty[1]
+        out += [("ite-neg", lambda x, c: ("ITE", (), (c, x, ("BV_NEG", (), (x,)))), lambda v, cv: v if cv else (-v) % Mw),
+                ("not", lambda x, c: ("BV_NOT", (), (x,)), lambda v, cv: (Mw - 1) ^ v)]
+    elif ty == BOOL:
+        out += [("not", lambda x, c: ("NOT", (), (x,)), lambda v, cv: not v)]
+    return out
+
+
+def check_form_constants(run, form, rnd, npoints):
+    """The same form applied directly to constants (constructors and infix operators fold constant operands)."""
+    name, tys, build, pydef, rty = form
+    if any(t[0] in ("Array", "Fun") for t in tys if isinstance(t, tuple)):
+        return
+    doms = [small_domain(t) for t in tys]
+    if all(d is not None for d in doms):
+        pts = list(itertools.product(*doms))
+        if len(pts) > npoints:
+            pts = [rnd.choice(pts) for _ in range(npoints)]
+    else:
+        pts = [tuple(sample_value(t, rnd) for t in tys) for _ in range(npoints)]
+    env = Environment()
+    env.enable_infix_notation = True
+    n = 0
+    with env:
+        mgr = env.formula_manager
+        for vals in pts:
+            try:
+                want = pydef(*vals)
+            except Unconstrained:
+                continue
+            try:
+                f = build(mgr, [pys.build_const(env, t, v) for t, v in zip(tys, vals)])
+                got = Evaluator({}, {}).eval(pys.decode(f))
+            except Unconstrained:
+                continue
+            except Exception as e:
+                run.fail({"subcheck": "derived:raised-on-constants", "form": name.split("/")[0]},
+                         {"form": name, "types": list(tys), "args": list(vals), "mode": "constants"},
+                         "%s applied to the constants %r raised %s: %s" % (name, vals, type(e).__name__, e))
+                break
+            n += 1
+            if got != want or (isinstance(want, bool) != isinstance(got, bool)):
+                run.fail({"subcheck": "derived:value-on-constants", "form": name.split("/")[0].rstrip("0123456789-")},
+                         {"form": name, "types": list(tys), "args": list(vals), "mode": "constants"},
+                         "%s applied to the constants %r builds %s = %r, the named function gives %r" % (
+                             name, vals, f, got, want))
+                break
+    if n:
+        run.case(key=(name, tys, "constants"), nontrivial=True, n=n)
+        run.cls("constant-operands-form")
+
+
+def check_form(run, form, rnd, nsamples, shaped=False):
     name, tys, build, pydef, rty = form
     env = Environment()
     env.enable_infix_notation = True
+    shp = [rnd.choice(shapes_for(t)[1:] or shapes_for(t)) if shaped else shapes_for(t)[0] for t in tys]
+    if shaped:
+        if all(s0[0] == "symbol" for s0 in shp):
+            return
+        pydef0 = pydef
+        nt = len(tys)
+        pydef = lambda *v: pydef0(*[shp[i][2](v[i], v[nt + i]) for i in range(nt)])
+        name = name + "@" + ",".join(s0[0] for s0 in shp)
     with env:
         mgr = env.formula_manager
-        args = [pys.build(env, sym("x%d" % i, t)) for i, t in enumerate(tys)]
+        args = [pys.build(env, shp[i][1](sym("x%d" % i, t), sym("c%d" % i, BOOL))) for i, t in enumerate(tys)]
         try:
             f = build(mgr, args)
         except Exception as e:
@@ -355,7 +428,8 @@ def check_form(run, form, rnd, nsamples):
         run.fail({"subcheck": "derived:type", "form": name.split("/")[0]}, {"form": name, "types": list(tys)},
                  "%s has type %r expected %r" % (show(b), t, rty))
         return
-    doms = [small_domain(t) for t in tys]
+    vtys = list(tys) + ([BOOL] * len(tys) if shaped else [])
+    doms = [small_domain(t) for t in vtys]
     exhaustive = all(d is not None for d in doms)
     if exhaustive:
         tot = 1
@@ -365,10 +439,11 @@ def check_form(run, form, rnd, nsamples):
     if exhaustive:
         points = itertools.product(*doms)
     else:
-        points = [tuple(sample_value(t, rnd) for t in tys) for _ in range(nsamples)]
+        points = [tuple(sample_value(t, rnd) for t in vtys) for _ in range(nsamples)]
     n = 0
     for vals in points:
-        I = {"x%d" % i: v for i, v in enumerate(vals)}
+        I = {"x%d" % i: v for i, v in enumerate(vals[:len(tys)])}
+        I.update({"c%d" % i: v for i, v in enumerate(vals[len(tys):])})
         try:
             want = pydef(*vals)
             got = Evaluator(I, {}).eval(b)
@@ -384,7 +459,7 @@ def check_form(run, form, rnd, nsamples):
             break
     run.case(key=key, nontrivial=True, n=max(n, 1),
              sample={"form": name, "sorts": [B.tystr(t) for t in tys], "formula": show(b, 120)} if len(tys) == 2 else None)
-    run.cls("exhaustive-form" if exhaustive else "sampled-form")
+    run.cls(("shaped-" if shaped else "") + ("exhaustive-form" if exhaustive else "sampled-form"))
 
 
 def shard(shard, nshards, wmax, seed, nsamples):
@@ -396,6 +471,8 @@ def shard(shard, nshards, wmax, seed, nsamples):
         for i, form in enumerate(fs):
             if i % nshards == shard:
                 check_form(run, form, rnd, nsamples)
+                check_form(run, form, rnd, max(50, nsamples // 10), shaped=True)
+                check_form_constants(run, form, rnd, 24)
     drive(body, st.randoms(use_true_random=True), 1, derive_seed(seed, "c06", shard))
     if shard == 0:
         for name, fn in must_raise_forms(wmax):
@@ -432,9 +509,15 @@ def replay(rec):
     import random
     run = Run(PID, known=[])
     c = rec["case"]
-    for form in forms(4):
-        if form[0] == c["form"] and list(form[1]) == [tuple(t) if isinstance(t, list) else t for t in c["types"]]:
-            check_form(run, form, random.Random(0), 200)
+    base = c["form"].split("@")[0]
+    for form in forms(5):
+        if form[0] == base and list(form[1]) == [tuple(t) if isinstance(t, list) else t for t in c["types"]]:
+            for sd in range(12):
+                check_form(run, form, random.Random(sd), 200)
+                check_form(run, form, random.Random(sd), 200, shaped=True)
+                check_form_constants(run, form, random.Random(sd), 64)
+                if run.violations:
+                    break
     if run.violations:
         print("VIOLATION property=%s replay=(replayed)" % PID)
         print(run.violations[0]["detail"])
